@@ -1354,7 +1354,11 @@ class GeoRing(PolygonBase):
             inner_bbox_str = ",".join(
                 " ".join(x.to_str()) for x in inner_circle
             )
-            return f'POLYGON(({outer_bbox_str}), ({inner_bbox_str}))'
+            hole_strs = ''.join(
+                ', ' + self._linear_ring_to_wkt(list(reversed(shape.bounding_coords(**kwargs))))
+                for shape in self.holes
+            )
+            return f'POLYGON(({outer_bbox_str}), ({inner_bbox_str}){hole_strs})'
 
         return super().to_wkt(**kwargs)
 
